@@ -1,7 +1,9 @@
 (** Model of benchfmt.Files (files.go): labels, duplicate-path
     disambiguation, one reader Reset per file with the [.file] label, unit
     metadata carried across files, stop at the first open or I/O error.
-    AllowStdin is not modelled (never set by the harness). No proofs here. *)
+    AllowStdin: [files_run_stdin] / [files_spec_stdin] below (the path "-" reads
+    the standard input; with no paths at all the standard input is the only
+    input). No proofs here. *)
 From Perf Require Import Base.Bytes Base.B64 Base.Utf8 Base.Unicode Model.Name Model.Extract Model.Units Model.Reader.
 Local Open Scope N_scope.
 
@@ -45,6 +47,18 @@ Definition files_inputs (allow_labels : bool) (paths : list bytes) : list finput
   let ins := map (parse_path allow_labels) paths in
   disambiguate ins (path_counts ins) [].
 
+(** AllowStdin.  With no paths the code appends the input ("-", "-") itself and
+    (since the repair "count the implicit stdin input") counts it like a path
+    given explicitly, so Files{AllowStdin, Paths: []} reads what
+    Files{AllowStdin, Paths: ["-"]} reads. *)
+Definition dash : bytes := [x2d].
+Definition stdin_paths (paths : list bytes) : list bytes :=
+  match paths with [] => [dash] | _ => paths end.
+(** the code before that repair: the implicit input is not counted, hence
+    "disambiguated" although it is the only input *)
+Definition files_inputs_nopaths_old : list finput :=
+  disambiguate [mkFinput dash dash false] [] [].
+
 Inductive ferr := FNone | FOpen | FIo (line : Z).
 
 Definition fs_find (fs : list (bytes * bytes)) (p : bytes) : option bytes :=
@@ -79,6 +93,13 @@ Fixpoint files_loop (fs : list (bytes * bytes)) (ins : list finput) (st : rstate
 Definition files_run (fs : list (bytes * bytes)) (allow_labels : bool) (paths : list bytes)
   : list record * ferr * rstate :=
   files_loop fs (files_inputs allow_labels paths) rs_empty.
+
+(** the standard input as the content of the path "-" (a file of that name is
+    never opened when AllowStdin is set) *)
+Definition with_stdin (stdin : bytes) (fs : list (bytes * bytes)) : list (bytes * bytes) :=
+  (dash, stdin) :: filter (fun e => negb (beq (fst e) dash)) fs.
+Definition files_run_stdin (fs : list (bytes * bytes)) (allow_labels : bool) (paths : list bytes) (stdin : bytes) :=
+  files_run (with_stdin stdin fs) allow_labels (stdin_paths paths).
 
 (** ** specification *)
 (** the label of the i-th path: as given if labelled; the path itself if it is
@@ -118,5 +139,16 @@ Fixpoint files_spec_loop (fs : list (bytes * bytes)) (ins : list finput) (um : l
   end.
 Definition files_spec (fs : list (bytes * bytes)) (allow_labels : bool) (paths : list bytes) :=
   files_spec_loop fs (spec_inputs allow_labels paths) [].
+
+(** with AllowStdin: the inputs are the paths, or the standard input alone when
+    there are none, labelled "-" (it is the only input, so nothing is
+    disambiguated) *)
+Definition spec_inputs_stdin (allow_labels : bool) (paths : list bytes) : list finput :=
+  match paths with
+  | [] => [mkFinput dash dash false]
+  | _ => spec_inputs allow_labels paths
+  end.
+Definition files_spec_stdin (fs : list (bytes * bytes)) (allow_labels : bool) (paths : list bytes) (stdin : bytes) :=
+  files_spec_loop (with_stdin stdin fs) (spec_inputs_stdin allow_labels paths) [].
 
 End Files.
